@@ -68,12 +68,14 @@ MCInit ==
     /\ ev = [name |-> "reset", ok |-> TRUE, signer |-> ""]
     /\ hist = HistInit
 
-On(m) == m \in Msgs
+\* the simulator overrides this to make the frequent-but-dull messages rarer than the interesting ones
+Gate(m) == TRUE
+On(m) == m \in Msgs /\ Gate(m)
 
 \* parameter records a governance change may install (a configuration overrides this: ParamAlts <- ...)
 ParamAlts == {}
 \* what a module context's owner does from inside its response / state callback (a configuration may widen this)
-Reactions == {<<"", "">>}
+Reactions == {<<"", "", 0>>}
 ParamGate == TRUE    \* the simulator overrides this to make parameter changes rarer than messages
 
 \* argument sets: everything in exhaustive runs, one random element per evaluation in simulation
@@ -126,12 +128,12 @@ MsgStep ==
              ra \in Pick(Reactions) :
           /\ (rep => (f = 0 \/ f >= t))
           /\ (~rep => f = 0 /\ n = 1)
-          /\ ModCreateR("vmod", c, s, ps, "in", cap, TRUE, TRUE, t, FALSE, rep, f, IF rep THEN n ELSE 0, st, thr, ra[1], ra[2])
+          /\ ModCreateR("vmod", c, s, ps, "in", cap, TRUE, TRUE, t, FALSE, rep, f, IF rep THEN n ELSE 0, st, thr, ra[1], ra[2], ra[3])
           /\ ev' = [name |-> "ModCreate", ok |-> TRUE, signer |-> c, module |-> "vmod", svc |-> s,
                     provs |-> ps, input |-> "in", cap |-> cap, capok |-> TRUE, inok |-> TRUE,
                     timeout |-> t, super |-> FALSE, rep |-> rep, freq |-> f,
                     total |-> IF rep THEN n ELSE 0, state |-> st, thr |-> thr, id |-> nctx + 1,
-                    rresp |-> ra[1], rstate |-> ra[2]]
+                    rresp |-> ra[1], rstate |-> ra[2], rtgt |-> ra[3]]
     \/ On("Pause") /\ \E id \in DOMAIN ctx : LET c == ctx[id].cons IN
           /\ Pause(c, id)
           /\ ev' = [name |-> "Pause", ok |-> TRUE, signer |-> c, id |-> id]
